@@ -180,11 +180,13 @@ func cellBytes(tag string, off, n int) []byte {
 func (b *Backend) serve(c *Conn) {
 	defer c.Close()
 	br := bufio.NewReaderSize(c, 4096)
+	served := 0
 	for {
 		req, err := http.ReadRequest(br)
 		if err != nil {
 			return
 		}
+		served++
 		ex := &Exchange{Backend: b.cfg.Name, ConnKey: c.key, Role: c.role, ArrivedAt: b.sim.Now(), Step: b.sim.Steps(),
 			Method: req.Method, Path: req.URL.Path, RawQuery: req.URL.RawQuery, Target: req.RequestURI, Host: req.Host,
 			Header: req.Header.Clone(), TE: req.TransferEncoding, CL: req.ContentLength}
@@ -236,6 +238,11 @@ func (b *Backend) serve(c *Conn) {
 		}
 		b.mu.Unlock()
 
+		if ex.Kind == "proxy" && served > 1 && b.cfg.StaleRST > 0 && int(b.sim.H("stale|"+c.key, uint64(served))%1000) < b.cfg.StaleRST {
+			b.fire(c, ex, &Fault{At: "reused-conn", Kind: "rst"})
+			b.finish(c, ex)
+			return
+		}
 		if ex.Kind == "proxy" && resp.Fault != nil && (resp.Fault.At == "accept" || resp.Fault.At == "req-read") {
 			b.fire(c, ex, resp.Fault)
 			b.finish(c, ex)
